@@ -731,6 +731,102 @@ func Route(w *load.World, c *core.Collector) {
 				}
 				nDest++
 				o := provDeep(w, st.Val)
+				// the destination is the key of a map that is ranged over ("per destination: what goes
+				// there"): what the keys put into that map are
+				dv := st.Val
+				for i := 0; i < 3; i++ {
+					if ld, ok := dv.(*ssa.UnOp); ok && ld.Op == token.MUL {
+						if al, ok := ld.X.(*ssa.Alloc); ok {
+							if sv := ssax.SingleStore(al); sv != nil {
+								dv = sv
+								continue
+							}
+						}
+						if fv, ok := ld.X.(*ssa.FreeVar); ok {
+							if sv := ssax.CapturedSingleStore(fv); sv != nil {
+								dv = sv
+								continue
+							}
+						}
+					}
+					break
+				}
+				if ex, ok := dv.(*ssa.Extract); ok && ex.Index == 1 {
+					if nx, ok := ex.Tuple.(*ssa.Next); ok {
+						if rg, ok := nx.Iter.(*ssa.Range); ok {
+							if _, isMap := rg.X.Type().Underlying().(*types.Map); isMap {
+								mroot := rg.X
+								if ld, ok := mroot.(*ssa.UnOp); ok {
+									mroot = ld.X
+								}
+								var nested []*ssa.Function
+								var collectAnon func(g *ssa.Function)
+								collectAnon = func(g *ssa.Function) {
+									nested = append(nested, g)
+									for _, a := range g.AnonFuncs {
+										collectAnon(a)
+									}
+								}
+								collectAnon(f)
+								for _, g := range nested {
+									for _, gb := range g.Blocks {
+										for _, gi := range gb.Instrs {
+											mu, ok := gi.(*ssa.MapUpdate)
+											if !ok {
+												continue
+											}
+											mm := mu.Map
+											if ld, ok := mm.(*ssa.UnOp); ok {
+												mm = ld.X
+											}
+											same := mm == mroot || mu.Map == rg.X
+											for hop := 0; hop < 3 && !same; hop++ {
+												fv, ok := mm.(*ssa.FreeVar)
+												if !ok {
+													break
+												}
+												if al := capturedCell(fv); al != nil {
+													same = ssa.Value(al) == mroot
+													break
+												}
+												// captured again by the enclosing literal: one level up
+												up := fv.Parent()
+												var next ssa.Value
+												if pp := up.Parent(); pp != nil {
+													for i, q := range up.FreeVars {
+														if q != fv {
+															continue
+														}
+														for _, pb := range pp.Blocks {
+															for _, pi := range pb.Instrs {
+																if mc, ok := pi.(*ssa.MakeClosure); ok && mc.Fn == ssa.Value(up) && i < len(mc.Bindings) {
+																	next = mc.Bindings[i]
+																}
+															}
+														}
+													}
+												}
+												if next == nil {
+													break
+												}
+												if next == mroot {
+													same = true
+												}
+												mm = next
+											}
+											if !same {
+												continue
+											}
+											for k := range provDeep(w, mu.Key) {
+												o[k] = true
+											}
+										}
+									}
+								}
+							}
+						}
+					}
+				}
 				viaHash, fullList := false, false
 				for k := range o {
 					if strings.Contains(k, "call:"+clusterPkg+".RendezvousHash") {
